@@ -357,6 +357,7 @@ static enum DeviceStatusCode vd_open(struct Driver* drv, uint64_t i, struct Devi
     // an exclusive device: a second open while it is in use is refused (the property does not forbid the runtime to try, e.g. when
     // one stream is configured with the device another stream still holds)
     if (d->open) { vs_event(46); return Device_Err; }
+    if (VM.fail_open[i] > 0) { VM.fail_open[i]--; vs_event(47); return Device_Err; }
     void* pg = mmap(0, 4096, PROT_READ | PROT_WRITE, MAP_PRIVATE | MAP_ANONYMOUS, -1, 0);
     if (pg == MAP_FAILED) return Device_Err;
     d->page = pg; d->page_bytes = 4096; d->open = 1; d->opens++; d->started = 0;
